@@ -42,10 +42,12 @@ class GenericGen:
 
     def __init__(self):
         self.names: list[str] = []
+        self.assum: dict[str, dict] = {}
 
     def sym(self, name: str, **assumptions):
         assumptions.setdefault("real", True)
         self.names.append(name)
+        self.assum[name] = dict(assumptions)
         return sp.Symbol(name, **assumptions)
 
     def syms(self, prefix: str, n: int, **assumptions):
@@ -200,7 +202,7 @@ def discharge(law: Law, shape, pid: str, replay_ref: str) -> Ob:
     # ---- refuted: look for a concrete failing input and replay it on the real code
     ob = Ob(name, REFUTED, backend, ms, detail, _shape_str(shape))
     rng = random.Random(seed() * 7919 + 17)
-    pt = find_failing_point(law, shape, gen.names, rng)
+    pt = find_failing_point(law, shape, gen.names, rng, assum=gen.assum)
     if pt is not None:
         ob.replay = {"reproduced": True, "inputs": {k: str(v) for k, v in pt.items()},
                      "script": _replay_script(replay_ref, law.name, shape, pt)}
@@ -231,9 +233,20 @@ def eval_case_at(law: Law, shape, pt) -> tuple[Optional[bool], list]:
     return True, vals
 
 
-def find_failing_point(law: Law, shape, names, rng, tries=60):
+def find_failing_point(law: Law, shape, names, rng, tries=60, assum=None):
+    assum = assum or {}
     for _ in range(tries):
         pt = {n: sp.Rational(rng.randint(-9, 9), rng.randint(1, 4)) for n in names}
+        for n in names:
+            a = assum.get(n, {})
+            if a.get("positive"):
+                pt[n] = abs(pt[n]) + sp.Rational(1, 3)
+            elif a.get("nonnegative"):
+                pt[n] = abs(pt[n])
+            elif a.get("negative"):
+                pt[n] = -abs(pt[n]) - sp.Rational(1, 3)
+            if a.get("integer"):
+                pt[n] = sp.Integer(int(pt[n]))
         pt["__seed__"] = rng.randint(0, 10 ** 6)
         try:
             ok, vals = eval_case_at(law, shape, pt)
